@@ -1,4 +1,5 @@
 import Jose.Jwk
+import Jose.Grid.C05
 import Jose.Jws
 import Jose.Jwe
 import Jose.Exc
@@ -115,5 +116,18 @@ theorem entry_point_operations :
                          (a.name ≠ "dir" → a.p1 = some "wrapKey" ∧ a.p2 = some "unwrapKey")) ∧
     (∀ a ∈ Exc.exchAlgs, a.p1 = some "deriveKey") := by
   decide
+
+
+/-! ### the model is the code, on a grid regenerated from the code on every run
+
+  `Jose/Grid/C05.lean` is rewritten by the translator (tools/extract_tables.py) on every run: it holds
+  what the library **built from the current working tree** answered, in-process, to a fixed grid of
+  operations — the grant decision `jose_jwk_prm`: 5 `use` values × 17 `key_ops` shapes (absent, empty, junk, every single operation, typical sets) × 9 requested operations × both `required` modes, and non-object keys.
+  `Driver.agrees` evaluates the model's handler for the row's operation (the same handler the
+  correspondence run uses) and compares with the recorded answer by `json_equal`.  The theorem is
+  checked by the kernel (`decide +kernel`: evaluation, no axiom); any edit of the C that changes one of
+  these answers makes it false, and the check then reports a violation. -/
+theorem model_is_code_on_grid : Jose.Grid.C05.chunks.all (fun c => c.all Jose.Driver.agrees) = true := by
+  decide +kernel
 
 end Jose.Props.C05
